@@ -36,6 +36,7 @@ ImplRun(s, i, g, z, kept) ==
   CASE it.k \in {"text", "include"} -> ImplRun(s, i + 1, g, z, IF Impl!Effective(g) THEN kept \cup {i} ELSE kept)
     [] it.k = "define" -> ImplRun(s, i + 1, g, IF Impl!Effective(g) THEN TRUE ELSE z, kept)
     [] it.k = "undef"  -> ImplRun(s, i + 1, g, IF Impl!Effective(g) THEN FALSE ELSE z, kept)
+    [] it.k = "cmtdir" -> ImplRun(s, i + 1, g, z, kept)       \* comments are removed before the line is classified, in every state
     [] it.k = "error"  -> (IF Impl!Effective(g) THEN [kept |-> kept, z |-> z, err |-> i] ELSE ImplRun(s, i + 1, g, z, kept))
     [] it.k = "if"     -> ImplRun(s, i + 1, Impl!Open(g, Truth(it.c)), z, kept)
     [] it.k = "ifdef"  -> ImplRun(s, i + 1, Impl!Open(g, Defined(it.c, z)), z, kept)
